@@ -208,6 +208,38 @@ def run(ctx):
             ctx.violation("message-location:keyword", "message for %s carries %r, keyword is at %r" % (it.key, [(m.get("line"), m.get("column")) for m in named], want),
                           {"text": text, "messages": named})
     ctx.count("fault_documents", n_fault)
+    # ---- the same fault at the same path in two root blocks of one text, validated in one call: each message
+    # must carry the position of the keyword in ITS root
+    n_multi = 0
+    for doc, _ in cases[:ctx.budget(120, 1500)]:
+        if isinstance(doc, list) or doc.type != "map" or not first_enum_item(doc):
+            continue
+        twin = _copy.deepcopy(doc)
+        pair = [doc, twin]
+        its = [first_enum_item(b)[1] for b in pair]
+        olds = [it.tokens[1].text for it in its]
+        for it in its:
+            it.tokens[1].text = "ZZBOGUS"
+        text, _, _ = docs.render(pair, docs.Layout(rng=rng, sep="wild", one_per_line=True, newline="\n", comments=False))
+        for it, o in zip(its, olds):
+            it.tokens[1].text = o
+        try:
+            d = sweep.fast_loads(text, True, False)
+            msgs = mappyfile.validate(d)
+        except Exception as ex:
+            ctx.violation("validate-raises:" + type(ex).__name__, "validate raised on a two-root document with one invalid enum value per root: %s" % str(ex)[:200], {"text": text})
+            continue
+        n_multi += 1
+        key = its[0].key
+        named = [(m.get("line"), m.get("column")) for m in msgs if m.get("message", "").upper().endswith(" " + key.upper())]
+        wants = [it.key_pos[0] for it in its]
+        missing = [w for w in wants if w not in named]
+        if missing:
+            ctx.violation("message-location:multi-root", "two roots with the same fault: messages for %s carry %r, the keywords are at %r" % (key, named, wants),
+                          {"text": text, "messages": msgs})
+        if n_multi >= ctx.budget(25, 300):
+            break
+    ctx.count("multi_root_fault_documents", n_multi)
     # object-level error: unknown keyword in nested blocks -> opener of the enclosing block
     for ty_path in (["map"], ["map", "layer"], ["map", "layer", "class"], ["map", "web"], ["map", "legend"], ["map", "layer", "class", "style"]):
         blocks = []
